@@ -220,12 +220,18 @@ def run_batch(prop, lifetimes, repo, workers, budget, tier, tables=None):
     t0 = time.monotonic()
     pending = list(range(len(lifetimes)))
     done = [0]
+    started = [0]
+    # the budget is a cap on STARTING further lifetimes, counted from the moment the first one can start
+    # (reference tables ready); a minimum amount of work is done whatever the machine's load
+    min_start = min(len(lifetimes), 8)
+    clock = {"t": None}
 
     def work():
         while True:
             L = None
             with lock:
-                if not pending or time.monotonic() - t0 > budget:
+                over = clock["t"] is not None and time.monotonic() - clock["t"] > budget
+                if not pending or (over and started[0] >= min_start) or time.monotonic() - t0 > 6 * budget + 300:
                     return
                 for cand in pending:
                     st = tables.state(lifetimes[cand]["env"]) if tables is not None else "ready"
@@ -238,10 +244,14 @@ def run_batch(prop, lifetimes, repo, workers, budget, tier, tables=None):
                         break
                 if L is not None:
                     pending.remove(L)
+                    started[0] += 1
+                    if clock["t"] is None:
+                        clock["t"] = time.monotonic()
             if L is None:
                 time.sleep(0.2)
                 continue
-            run_lifetime(prop, lifetimes[L], repo, tier, results[L], deadline=t0 + budget * 1.25, stop_on_violation=True, table=tables.get(lifetimes[L]["env"]) if tables is not None else None)
+            dl = None if started[0] <= min_start else clock["t"] + budget * 1.25
+            run_lifetime(prop, lifetimes[L], repo, tier, results[L], deadline=dl, stop_on_violation=True, table=tables.get(lifetimes[L]["env"]) if tables is not None else None)
             with lock:
                 done[0] += 1
                 if done[0] % 8 == 0:
